@@ -160,6 +160,8 @@ def gen(rng, tier):
     n = 50 if tier == "quick" else 600
     for i in range(n):
         doc = xmlgen.to_xml_loadable(defgen.rnd_definition(rng))
+        if rng.random() < 0.4:     # a parameter (with a type of its own) that no container uses
+            doc["params"]["UNUSED"] = {"name": "UNUSED", "type": defgen.int_type("UNUSED", rng.choice([8, 16]))}
         xml = xmlgen.document_xml(doc, NS, omit_seed=rng.choice([None, rng.randrange(1 << 30)]))
         if i % 2:
             xml = reorder(rng, xml)
